@@ -12,7 +12,10 @@ ID = 'C01'
 LEVEL = 'proof'
 LEVEL_TEXT = ('Unbounded Lean theorems: (a) ALL SIZES of the hand-modelled classes (Properties/C01<Class>.lean, currently '
               'Toric2DCode L>=2, Planar2DCode and RotatedPlanar2DCode L>=1, Toric3DCode L>=2, Planar3DCode and '
-              'RotatedPlanar3DCode L>=1, XCubeCode L>=2, Color666PlanarCode L>=1, Color488Code and Color666ToricCode LxL, '
+              'RotatedPlanar3DCode L>=1, XCubeCode L>=2, Color666PlanarCode L>=1, Color488Code Lx,Ly>=1 (rectangular sizes '
+              'included since the repair of get_logicals_x / get_logicals_z, whose column x=7 and row y=1 used the wrong side in '
+              'their loop bounds; regression theorems old_rectangular_anticommutes / old_rectangular_invalid on the 2x3 lattice), '
+              'Color666ToricCode LxL, '
               'L>=1 (qubit lists derived from the stabilizers; periodic identification proved canonical), RhombicPlanarCode '
               'Lx,Ly>=2 Lz>=1, RhombicToricCode all L_i even >=2, HollowPlanar3DCode L>=1 (with or without a cavity; logical Z = '
               'the membrane through the cavity, cross-section x = 3, since the repair of get_logicals_z), '
@@ -146,8 +149,9 @@ def cases_for(ctx, deep):
             for s in [extra[i] for i in sorted(rng.choice(len(extra), min(len(extra), 6), replace=False))] if extra else []:
                 d = defs[int(rng.integers(0, len(defs)))]
                 cases.append({'class': cls, 'size': list(s), 'deform': [d[0], d[1]]})
-    # documented-but-unsupported sizes (where known findings live)
-    for cls in ('Color488Code', 'Color666ToricCode'):
+    # documented-but-unsupported sizes (where known findings live); the rectangular sizes of
+    # Color488Code are ordinary supported sizes (table sizes above) since the repair of its logicals
+    for cls in ('Color666ToricCode',):
         for s in ((1, 2), (2, 1), (2, 3), (3, 2)):
             cases.append({'class': cls, 'size': list(s), 'deform': [None, {}], 'nonsquare': True})
     # inside the supported family, beyond the table bound: a known rank deficiency
